@@ -245,3 +245,45 @@ GUARDS_MATCHERS = _matcher_guards(COMP + "_match_layer_pattern", "lid") + _match
 
 def run_guards(ctx: Ctx, guards: list[Guard]) -> list[Ob]:
     return [check_guard(ctx, g) for g in guards]
+
+
+# ------------------------------------------------------------------------------- R8m: membership guards
+def scope_membership(ctx: Ctx, fq: str, label: str) -> list[Ob]:
+    """R8m -- 'variables outside the scope are rejected' is a *membership* test: the condition of the
+    refusing guard derives (through local definitions) from the circuit's scope used as a set --
+    difference / intersection / subset comparison / ``in`` -- not merely from its largest id.  A
+    bound test (``idx >= max(scope) + 1``) accepts every id in a gap of a scope that is not 0..n-1."""
+    from ..flow import LocalDefs
+
+    f = ctx.repo.func(fq)
+    ld = LocalDefs(f.node)
+    out: list[Ob] = []
+    guards = [n for n in walk_no_nested(f.node) if isinstance(n, ast.If) and any(isinstance(b, ast.Raise) for b in n.body)]
+    decided = False
+    for g in guards:
+        exprs = ld.expand(g.test)
+        txt_all = " ".join(unparse(e) for e in exprs)
+        if ".scope" not in txt_all:
+            continue
+        decided = True
+        set_use = False
+        for e in exprs:
+            for x in ast.walk(e):
+                if isinstance(x, ast.BinOp) and isinstance(x.op, (ast.Sub, ast.BitAnd, ast.BitOr, ast.BitXor)) and (".scope" in unparse(x.left) or ".scope" in unparse(x.right)):
+                    if not (isinstance(x.left, ast.Call) and (dotted(x.left.func) or "") in ("max", "min", "len")) and not (isinstance(x.right, ast.Constant)):
+                        set_use = True
+                if isinstance(x, ast.Compare) and any(isinstance(o, (ast.In, ast.NotIn, ast.LtE, ast.GtE, ast.Lt, ast.Gt)) for o in x.ops):
+                    sides = [x.left] + list(x.comparators)
+                    if any(unparse(s_).endswith(".scope") for s_ in sides):
+                        set_use = True
+                if isinstance(x, ast.Call) and isinstance(x.func, ast.Attribute) and x.func.attr in ("difference", "issubset", "issuperset", "intersection", "isdisjoint"):
+                    if ".scope" in unparse(x):
+                        set_use = True
+        site = f"{f.module.relpath}:{g.lineno}"
+        if set_use:
+            out.append(ok("R8m", fq, label, "the refusing condition derives from the scope used as a set", site))
+        else:
+            out.append(viol("R8m", fq, label, f"the refusing condition `{unparse(g.test)[:50]}` derives from the scope only through a bound (max / len), not through a set operation: ids in a gap of the scope pass the check", site))
+    if not decided:
+        out.append(unres("R8m", fq, label, "no refusing guard whose condition derives from a scope", f.loc))
+    return out
